@@ -53,7 +53,9 @@ type peerState struct {
 	value uint64
 }
 
-func (s peerState) healthy() bool { return s.kind == mValid || s.kind == mNonNumeric || s.kind == mExpiredThenValid }
+func (s peerState) healthy() bool {
+	return s.kind == mValid || s.kind == mNonNumeric || s.kind == mExpiredThenValid
+}
 func (s peerState) numeric() bool { return s.kind == mValid || s.kind == mExpiredThenValid }
 
 var kindNames = []string{"absent", "valid", "expired", "invalid", "nonnumeric", "valid>expired", "expired>valid"}
@@ -188,7 +190,7 @@ func logMetric(f *fakes.ClusterFixture, name string, p peer.ID, value string, va
 	}
 }
 
-const rule = "case = allocator (ascend/descend) x peerset (1-8 of a 2-10 peer universe) x per-peer metric state (absent, valid numeric with ties and near-max uint64, expired, invalid, non-numeric, valid-then-expired, expired-then-valid; peers outside the peerset also get metrics) x current pin (absent or allocations over the whole universe) x requested factors (-1/-1, 0/0 with generated cluster defaults, k<=m in 1..5, invalid pairs) x user allocations x entry point (Cluster.Pin, Cluster.BlockAllocate RPC, PeerRemove of a current holder = exclusion list); non-trivial = (an unhealthy peer in the peerset or a non-empty current allocation) and (more healthy candidates than wanted, or the request fails); distinct by canonical rendering of the case"
+const rule = "case = allocator (ascend/descend) x peerset (1-8 of a 2-10 peer universe) x per-peer metric state (absent, valid numeric with ties and near-max uint64, expired, invalid, non-numeric, valid-then-expired, expired-then-valid; peers outside the peerset also get metrics) x current pin (absent or allocations over the whole universe) x requested factors (-1/-1, 0/0 with generated cluster defaults, k<=m in 1..5, invalid pairs) x user allocations x entry point (Cluster.Pin, Cluster.BlockAllocate RPC followed by the Cluster.Pin RPC with those allocations preset as the adder does, PeerRemove of a current holder = exclusion list); non-trivial = (an unhealthy peer in the peerset or a non-empty current allocation) and (more healthy candidates than wanted, or the request fails); distinct by canonical rendering of the case"
 
 func TestAllocations(t *testing.T) {
 	leg := ev.L("allocations", rule)
@@ -390,6 +392,31 @@ func TestAllocations(t *testing.T) {
 			}
 			checkResult(t, c, result, cur, curH, H, Hn, min, max)
 			nontrivial = (unhealthyInSet || len(cur) > 0) && candHn > max-len(curH)
+		}
+		// what the adder does next: it pins through the Cluster.Pin RPC with
+		// the allocations BlockAllocate gave it already set on the pin. The
+		// stored entry must keep exactly those, or none when the effective
+		// factors say "everywhere"
+		if c.entry == "blockallocate" && err == nil && validFactors {
+			in := api.PinWithOpts(ci, api.PinOptions{ReplicationFactorMin: c.reqMin, ReplicationFactorMax: c.reqMax, Name: "request", UserAllocations: c.prio})
+			in.Allocations = append([]peer.ID(nil), result...)
+			var out api.Pin
+			if perr := f.API.RPC().CallContext(ctx, "", "Cluster", "Pin", in, &out); perr != nil {
+				t.Fatalf("Cluster.Pin with the allocations BlockAllocate returned (%s) failed: %v\ncase: %s", plist(result), perr, c)
+			}
+			stored, gerr := f.C.PinGet(ctx, ci)
+			if gerr != nil {
+				t.Fatalf("pinned but PinGet fails: %v\ncase: %s", gerr, c)
+			}
+			if min == -1 {
+				if len(stored.Allocations) != 0 {
+					t.Fatalf("replication -1 (request %d/%d, defaults %d/%d) pinned after BlockAllocate must store an empty allocation list, got %s\ncase: %s", c.reqMin, c.reqMax, c.defMin, c.defMax, plist(stored.Allocations), c)
+				}
+				classes = append(classes, "preset-everywhere")
+			} else if plist(sorted(stored.Allocations)) != plist(sorted(result)) {
+				t.Fatalf("pinned with preset allocations %s but %s were stored\ncase: %s", plist(sorted(result)), plist(sorted(stored.Allocations)), c)
+			}
+			classes = append(classes, "preset-pin")
 		}
 		if len(cur) > 0 {
 			classes = append(classes, "has-current")
